@@ -161,8 +161,12 @@ def run(path, rlimit=30, multiple_errors=10, threads=8, timeout=900, extra=()):
                     call_txt = bsrc[sp["byte_start"]:sp["byte_end"]].decode("utf-8", "ignore")
             # Option/Result::unwrap / expect: the failed vstd precondition IS the panic condition -> a real obligation of the function
             panicking = bool(re.search(r"\.(unwrap|expect|unwrap_err|expect_err)\s*\((?:[^()]|\([^()]*\))*\)\s*$", call_txt.strip()))
+            # indexing a Vec / slice: vstd's precondition `i < len` IS the out-of-bounds panic
+            indexing = bool(re.search(r"[\w)\]]\s*\[(?:[^\[\]]|\[[^\[\]]*\])+\]\s*$", call_txt.strip())) and not call_txt.strip().startswith("#[")
             if panicking:
                 kind = "unwrap"
+            elif indexing:
+                kind = "index"
             elif foreign and not any((sp.get("label") or "").startswith("failed precondition") and sp.get("file_name", "").endswith(base)
                                      for sp in spans):
                 # the failed precondition is one of vstd's own (typically `f.requires(..)` of a closure passed to Option::map
